@@ -28,10 +28,21 @@ ENGINE = "C03"
 OMIT = object()
 
 
-def pyparam(name, snake):
-    """Python parameter of a variable: process_name, then `self` / `kwargs` get "_" (/repo a558946)."""
-    p = scen.param_name(name, snake)
-    return p + "_" if p in ("self", "kwargs") else p
+def param_names(names, snake, scalars_cfg):
+    """{variable: Python parameter} as the generator assigns them (since /repo 7f3b78b): process_name, then "_"
+    appended until free of self / kwargs / gql / UNSET / serialize functions / earlier parameters."""
+    used = {"self", "kwargs", "gql", "UNSET"}
+    for c in (scalars_cfg or {}).values():
+        if c and c.get("serialize"):
+            used.add(c["serialize"].rsplit(".", 1)[-1])
+    out = {}
+    for n in names:
+        p = scen.param_name(n, snake)
+        while p in used:
+            p += "_"
+        used.add(p)
+        out[n] = p
+    return out
 
 
 def scalar_config(rng, want_ser=None):
@@ -100,6 +111,9 @@ def corpus_scenarios():
                           features=("corpus:F18",), files={"vscal.py": argenc.VSCAL}),
         scenario.Scenario(seed=900002, sdl=sdl, queries=q7, config=dict(cfg, convert_to_snake_case=False),
                           features=("corpus:F7",), files={"vscal.py": argenc.VSCAL}),
+        scenario.Scenario(seed=900003, sdl=sdl, queries="query NotIdent($_1: Int) { f(n: $_1) }\n",
+                          config=dict(cfg, convert_to_snake_case=True),
+                          features=("corpus:not-identifier",), files={"vscal.py": argenc.VSCAL}),
     ]
 
 
@@ -206,7 +220,23 @@ def run(ctx):
             feats = "+".join(g.sc.features) or "default"
             run.dist("scenarios", feats)
             if not g.ok:
-                run.dist("skipped", "generation-failed:" + feats)      # C04's subject
+                # C04's subject in general; but when the MODEL predicts a parameter that is no identifier
+                # (names_ok = false) the failed generation is the listed C03 class
+                try:
+                    cfg0 = g.sc.config
+                    ssx0 = argenc.schema_sx(g.schema, cfg0.get("scalars") or {})
+                    rs = model.batch(ENGINE, [[Sym("gen"), bool(cfg0.get("convert_to_snake_case", True)), ssx0,
+                                               argenc.vardefs_sx(g.schema, op)] for op in g.operations()])
+                    bad = [op.name.value for op, r in zip(g.operations(), rs) if isinstance(r, list) and r[0] == "ok" and r[2] == "f"]
+                except Exception:  # noqa  (schema itself not loadable: not ours)
+                    bad = []
+                if bad:
+                    run.finding("F18-variable-name-not-identifier",
+                                f"generation fails for operation(s) {bad}: {g.res.get('exc')}",
+                                {"schema": g.sc.sdl, "queries": g.sc.queries, "config": g.sc.config, "exc": g.res.get("exc")})
+                    run.dist("skipped", "generation-failed:predicted-by-model(sig_ok=false):" + feats)
+                else:
+                    run.dist("skipped", "generation-failed:" + feats)
                 continue
             cfg = g.res["config"]
             snake = cfg.get("convert_to_snake_case", True)
@@ -217,8 +247,9 @@ def run(ctx):
             for op, vsx, vds, cases in plan:
                 slots.append(("gen", g, op, None))
                 cmds.append([Sym("gen"), snake, ssx, vsx])
+                pn = param_names([n for n, _t, _d in vds], snake, cfg.get("scalars"))
                 for c in cases:
-                    kw = [[pyparam(n, snake), v.sx] for n, v in c.vals.items() if v is not OMIT]
+                    kw = [[pn[n], v.sx] for n, v in c.vals.items() if v is not OMIT]
                     slots.append(("call", g, op, c))
                     cmds.append([Sym("call"), snake, ssx, vsx, kw])
                 # K2: valid + malformed provided values
@@ -283,7 +314,8 @@ def run(ctx):
                         real = [p[0] for p in (ld.get("methods", {}).get(m, {}).get("params") or []) if p[3] != "VAR_KEYWORD"]
                         pmap = dict(zip(order, real)) if len(real) == len(order) else {}
                         for c in cases:
-                            enc = {pmap.get(n, pyparam(n, g.snake)): v.enc for n, v in c.vals.items() if v is not OMIT}
+                            pn = param_names(order, g.snake, g.res["config"].get("scalars"))
+                            enc = {pmap.get(n, pn[n]): v.enc for n, v in c.vals.items() if v is not OMIT}
                             intended = {n: v.intent for n, v in c.vals.items() if v is not OMIT}
                             c.real = g.driver.ask({"cmd": "call_args", "method": m, "args": enc, "intended": intended})
             finally:
@@ -383,7 +415,7 @@ def check_scenario(ctx, g, plan, rows, genres, stats):
         client_err = (ld.get("modules") or {}).get("client", "ok") != "ok" or "client" in msg
         if any_sig_bad:
             op0 = plan[0][0] if plan else None
-            run.finding("F7-param-name-clash", f"generated client does not import: {msg}",
+            run.finding("F18-variable-name-not-identifier", f"generated client does not import: {msg}",
                         replay_of(g, op0, load=ld.get("modules")) if op0 else {"load": ld.get("modules")})
             run.dist("load", "import-failed:predicted-by-model(sig_ok=false)")
         else:
@@ -404,7 +436,7 @@ def classify(names_ok, inputs_ok, f10_bad, involved, f21=False):
     """Finding class of a failing call, or None (=> VIOLATION).  f21: the schema has an input field of the F21
     shape AND the faithful model reproduces exactly what the implementation did on this call."""
     if not names_ok:
-        return "F7-param-name-clash"
+        return "F18-variable-name-not-identifier"
     if f21:
         return "F21-nonnull-list-nullable-items"
     if involved is not None and involved and involved <= f10_bad:
